@@ -39,7 +39,8 @@ EXPLANATION = (
     "five guards exist with the rejecting polarity and dominate its return. (V3) Reject exits "
     "carry StatusCode.BAD_REQUEST = 59; the uploads-disabled exit carries 50 and precedes "
     "parsing. (V4) The three length comparisons resolve to the single literal 1024 and to "
-    "the threshold `line > 1022 bytes`. Acceptance of every grammatical URL is not decided."
+    "the threshold `line > 1022 bytes`. Acceptance of every grammatical URL is not decided. "
+    "(V5) The request line is located independently of read boundaries (the C07.S3 rule set on the server's data_received)."
 )
 
 
